@@ -128,6 +128,13 @@ def candidates (sp : Spec) (op : Op) : List Out :=
   | .emitMsg msg h => match msg with
     | [] => refusals
     | b :: _ => deliver b.toUInt64 h (some msg)
+  | .emitCmd msg h => match msg with
+    | [] => refusals
+    | b :: _ =>
+      (match sp.target b.toUInt64 with
+       | some r => (sp.hashOutcomes (some msg) h).map fun o =>
+           ⟨.val (book sp.dflt o.2.2 ⟨o.2.1, false⟩).1, .call r b.toUInt64 :: o.1⟩
+       | none => deliver b.toUInt64 h (some msg))
   | .emitNone h =>
     if sp.dflt = 0 then [⟨.val 0, []⟩]
     else deliver sp.dflt h ++ (match sp.fb with
@@ -139,6 +146,12 @@ def candidates (sp : Spec) (op : Op) : List Out :=
       | some id => match sp.target id with
         | some r => [⟨.val h.val, [.call r id]⟩, ⟨.val failDefault, [.call r id]⟩]
         | none => [⟨.val failDefault, []⟩, ⟨.val (builtinAnswer id (some msg)).val, []⟩]
+  | .hashFrag frags h =>
+    (cmdIdsFrag frags).flatMap fun cid => match cid with
+      | none => [⟨.val failDefault, []⟩]
+      | some id => match sp.target id with
+        | some r => [⟨.val h.val, [.call r id]⟩, ⟨.val failDefault, [.call r id]⟩]
+        | none => [⟨.val failDefault, []⟩, ⟨.val (builtinAnswer id (some frags.flatten)).val, []⟩]
   | .reserve _ => [⟨.null, []⟩]
   | .drop => [⟨.val 0, sp.live.map (.fin ·.2)⟩]
   | .tcopy _ => [⟨.val (-4), []⟩, ⟨.val 0, []⟩]
@@ -202,6 +215,14 @@ def parseOp (w : List String) : Option Op :=
     let h ← parseRes r
     let b ← parseHex hex
     pure (.emitMsg b h)
+  | ["e", "emit", "cmd", hex, r] => do
+    let h ← parseRes r
+    let b ← parseHex hex
+    pure (.emitCmd b h)
+  | ["e", "hashf", frags, r] => do
+    let h ← parseRes r
+    let fs ← (frags.splitOn ",").mapM parseHex
+    if fs.length > 16 then none else pure (.hashFrag fs h)
   | ["e", "emit", "none", r] => (parseRes r).map .emitNone
   | ["e", "hash", hex, r] => do
     let h ← parseRes r
